@@ -94,6 +94,11 @@ func (ex *Exec) harnessPrim(st *State, fn *ssa.Function, args []Value, in *ssa.C
 			return true
 		}
 		r, _ := ex.solver.Check(st.pc, Not(c), nil)
+		if r != "sat" && r != "unsat" {
+			// portfolio: integer encoding that keeps the mod-2^k semantics (good at sums of lengths)
+			r = intBlast(Standalone(st.pc, Not(c)), 90)
+			ex.intr["PORTFOLIO:cvc5 --solve-bv-as-int=sum"] = true
+		}
 		switch r {
 		case "unsat":
 			if as.Checked <= 1 && len(ex.vcs) < 16 {
